@@ -423,6 +423,16 @@ func sprintf(fr *frame, format string, args []value) value {
 			}
 			continue
 		}
+		if verb == 'v' && (flags == "" || flags == "+") {
+			if it, ok := arg.(iface); ok && it.t != nil && !hasStringMethod(fr, it.t) {
+				if _, basic := it.t.Underlying().(*types.Basic); !basic {
+					if s, ok := fmtTyped(fr, it.t, it.v, flags == "+", true); ok {
+						lit(s)
+						continue
+					}
+				}
+			}
+		}
 		if g, ok := goValue(fr, inner); ok {
 			// named string types etc. still format natively unless they have methods
 			if it, ok2 := arg.(iface); !ok2 || !hasStringMethod(fr, it.t) {
@@ -478,14 +488,30 @@ func extSprintf(fr *frame, args []value) value {
 
 func extSprint(fr *frame, args []value) value {
 	var parts []value
-	for _, a := range args[0].([]value) {
+	ops := args[0].([]value)
+	for k, a := range ops {
+		if k > 0 && !isStringOperand(a) && !isStringOperand(ops[k-1]) {
+			parts = append(parts, " ")
+		}
 		parts = append(parts, stringOf(fr, a, 'v'))
 	}
 	return ropeConcat(parts...)
 }
 
 func extErrorf(fr *frame, args []value) value {
-	return fr.i.newError(sprintf(fr, concStr(fr, args[0]), args[1].([]value)))
+	format := concStr(fr, args[0])
+	ops := args[1].([]value)
+	if strings.Count(format, "%w") == 1 && strings.Count(format, "%%") == 0 {
+		// the operand of %w, rendered as %v, and remembered for Unwrap
+		k := strings.Count(format[:strings.Index(format, "%w")], "%")
+		if k < len(ops) {
+			if it, ok := ops[k].(iface); ok && it.t != nil && hasStringMethod(fr, it.t) {
+				msg := sprintf(fr, strings.Replace(format, "%w", "%v", 1), ops)
+				return fr.i.wrapError(msg, ops[k])
+			}
+		}
+	}
+	return fr.i.newError(sprintf(fr, strings.ReplaceAll(format, "%w", "%v"), ops))
 }
 
 // ---------------------------------------------------------------------
@@ -818,19 +844,24 @@ func builderSlot(fr *frame, recv value) *value {
 	return &st[0]
 }
 
-func builderGet(slot *value) value {
+func builderGet(fr *frame, slot *value) value {
 	switch s := (*slot).(type) {
 	case string:
 		return s
 	case *rope:
 		return s
+	case ropeBytes:
+		return s.r
+	case []value:
+		// a buffer built by NewBuffer / NewBufferString holds real bytes
+		return bytesAsStr(fr, s)
 	}
 	return ""
 }
 
 func extBuilderWriteString(fr *frame, args []value) value {
 	slot := builderSlot(fr, args[0])
-	*slot = ropeConcat(builderGet(slot), args[1])
+	*slot = ropeConcat(builderGet(fr, slot), args[1])
 	n := value(ropeMinLen(args[1]))
 	if r, ok := args[1].(*rope); ok {
 		n = r.length(fr)
@@ -847,7 +878,7 @@ func extBuilderWriteByte(fr *frame, args []value) value {
 	} else {
 		s = string([]byte{args[1].(byte)})
 	}
-	*slot = ropeConcat(builderGet(slot), s)
+	*slot = ropeConcat(builderGet(fr, slot), s)
 	return iface{}
 }
 
@@ -859,28 +890,28 @@ func extBuilderWriteRune(fr *frame, args []value) value {
 	} else {
 		s = string(args[1].(rune))
 	}
-	*slot = ropeConcat(builderGet(slot), s)
+	*slot = ropeConcat(builderGet(fr, slot), s)
 	return tuple{ropeMinLen(s), iface{}}
 }
 
 func extBuilderWrite(fr *frame, args []value) value {
 	slot := builderSlot(fr, args[0])
 	if rb, ok := args[1].(ropeBytes); ok {
-		*slot = ropeConcat(builderGet(slot), rb.r)
+		*slot = ropeConcat(builderGet(fr, slot), rb.r)
 		return tuple{ropeMinLen(rb.r), iface{}}
 	}
 	bs := args[1].([]value)
 	s := conv(fr, types.Typ[types.String], types.NewSlice(types.Typ[types.Byte]), bs)
-	*slot = ropeConcat(builderGet(slot), s)
+	*slot = ropeConcat(builderGet(fr, slot), s)
 	return tuple{len(bs), iface{}}
 }
 
 func extBuilderString(fr *frame, args []value) value {
-	return builderGet(builderSlot(fr, args[0]))
+	return builderGet(fr, builderSlot(fr, args[0]))
 }
 
 func extBuilderLen(fr *frame, args []value) value {
-	switch s := builderGet(builderSlot(fr, args[0])).(type) {
+	switch s := builderGet(fr, builderSlot(fr, args[0])).(type) {
 	case string:
 		return len(s)
 	case *rope:
@@ -895,7 +926,7 @@ func extBuilderReset(fr *frame, args []value) value {
 }
 
 func extBufferBytes(fr *frame, args []value) value {
-	s := builderGet(builderSlot(fr, args[0]))
+	s := builderGet(fr, builderSlot(fr, args[0]))
 	if r, ok := s.(*rope); ok && !r.hasOnlyFixed() {
 		return ropeBytes{r}
 	}
